@@ -9,6 +9,12 @@ import sys
 def main():
     check, mode, spec_path, out_path = sys.argv[1:5]
     faulthandler.enable()
+    try:
+        import resource
+        # astronomically large allocations fail at once (MemoryError) instead of thrashing the machine
+        resource.setrlimit(resource.RLIMIT_AS, (6 << 30, 6 << 30))
+    except (ImportError, ValueError, OSError):
+        pass
     sys.path.insert(0, os.path.dirname(os.path.dirname(os.path.abspath(__file__))))
     sys.setrecursionlimit(10000)
     repo = os.environ.get("VERIF_REPO", "/repo")
